@@ -272,7 +272,7 @@ func (g *gen) pointCheck(recover bool) {
 // crashPrefixes replays every prefix of the call log (optionally only every step-th) as a crash state.
 func (g *gen) crashPrefixes(step int, partialRm bool) {
 	e := g.e
-	calls := append([]call(nil), e.w.calls...)
+	calls := e.w.callsCopy()
 	live := g.liveRows()
 	bm, mm := map[string][]byte{}, map[string][]byte{}
 	type ack struct {
@@ -358,7 +358,7 @@ func (g *gen) uploadFirst(calls string, skip int) {
 
 // order: a feasible arrival order of the meta blobs present: enumeration order, shuffled inside windows.
 func (g *gen) order(shuffle bool) string {
-	names := g.e.w.meta.sortedNames()
+	names := g.e.w.meta.SortedNames()
 	if len(names) == 0 {
 		return "-"
 	}
@@ -385,7 +385,7 @@ func (g *gen) restart(mode string, shuffle bool) string {
 		g.r.Fail("store-does-not-open", "CreateStorage / readAllMetaBlobs fails over wrapped stores nobody tampered with", "ok", out, g.r.CaseOps())
 	}
 	if out == "ok" {
-		g.sinceComp = len(g.e.w.meta.m)
+		g.sinceComp = g.e.w.meta.count()
 	}
 	return out
 }
@@ -396,7 +396,7 @@ func (g *gen) recv(kind string, data []byte) string {
 	ref := blob.RefFromBytes(data).String()
 	if strings.HasPrefix(out, "ok") {
 		if _, ok := g.ackAt[ref]; !ok {
-			g.ackAt[ref] = len(g.e.w.calls)
+			g.ackAt[ref] = g.e.w.numCalls()
 		}
 	}
 	return out
@@ -549,8 +549,8 @@ func (g *gen) compaction(n int, everyPoint bool, label string) {
 		// (with more than 200 meta blobs the scan starts several packers at once, whose relative order
 		// the harness cannot pin down; the theorems cover those schedules)
 		forced := phase == "C" && i == target
-		if (forced || (phase != "C" && g.r.R.Intn(40) == 0)) && len(g.e.w.meta.m) <= 200 {
-			before := len(g.e.w.meta.m)
+		if (forced || (phase != "C" && g.r.R.Intn(40) == 0)) && g.e.w.meta.count() <= 200 {
+			before := g.e.w.meta.count()
 			g.restart([]string{"keep", "wipe"}[g.r.R.Intn(2)], true)
 			calls := g.op("calls")
 			g.uploadFirst(calls, 0)
@@ -997,10 +997,10 @@ func (g *gen) faults(rounds int) {
 	g.op("dump")
 	g.pointCheck(true)
 	// the receive that would start the packer fails at its own meta write, then at its blobs write
-	many(100 - len(g.e.w.meta.m))
+	many(100 - g.e.w.meta.count())
 	g.op("fault M 1")
 	retry(g.freshData(16), "trigger-meta-write-fails")
-	many(100 - len(g.e.w.meta.m))
+	many(100 - g.e.w.meta.count())
 	g.op("fault E 1")
 	retry(g.freshData(16), "trigger-blobs-write-fails")
 	g.op("fault E 0")
@@ -1118,7 +1118,7 @@ func (g *gen) duplicates(how string) {
 	ack := func(out string) {
 		if strings.Contains(out, "ok") {
 			if _, ok := g.ackAt[ref]; !ok {
-				g.ackAt[ref] = len(g.e.w.calls)
+				g.ackAt[ref] = g.e.w.numCalls()
 			}
 		}
 	}
@@ -1212,7 +1212,7 @@ func (g *gen) keepRestart(before int, again bool) {
 	recvUntil(before, false)
 	g.op("dump")
 	g.pointCheck(true)
-	metas := len(g.e.w.meta.m)
+	metas := g.e.w.meta.count()
 	out := g.restart("keep", true)
 	g.r.Hit(fmt.Sprintf("keep:restart-keep(after-%d-compactions):%s", compactions, out))
 	g.op("calls")
